@@ -167,7 +167,7 @@ func C11(tier string) {
 		}
 		return deep
 	}
-	r.Rule(fmt.Sprintf("%d scenarios on the overlay-instrumented real code, fresh package state per execution: first-use races of the lazily built 16-bit tables (2 and 3 goroutines, 1-2 calls each, per space and across srgb/displayp3), image transforms and prism.ConvertImageTo* with parallelism 2 and 3 on 3x2 images down every destination path (tables first touched inside the workers), two image transforms at once, two concurrent Loads per loader, concurrent adaptations, one meta.Data / one icc.Profile / one source image shared by two goroutines, 8-bit and 16-bit entry points meeting at first use; iterative context bounding with happens-before state caching (a state = the multiset of per-goroutine history hashes, each history folding in the history of every write it read or overwrote and every release it acquired; a state reached again with no fewer preemptions used is not expanded again); 2-goroutine single-call first-use scenarios: ALL interleavings of hooked operations guaranteed; the others: all schedules with <= %d preemptions guaranteed (one more for the two-call colour scenarios, one or two fewer for 4 goroutines and parallelism 5/11), then one more preemption at a time while the per-scenario budget lasts, ending early when a pass was never limited by the bound (= all interleavings); the bound completed per scenario is in coverage.scenarios; the explorer first has to give the known verdict on 19 litmus programs (racy and locked counters, broken double-checked locking, Once with 2 and 3 goroutines, lock-order inversion with a 1-preemption counterexample, WaitGroup hand-over, unsynchronised flag, atomic publication, spin-wait on an atomic flag, atomic flag claimed too early, atomic against plain access, channel hand-over, channel semaphore, close and range, a completion token taken by the wrong caller, a receive nobody answers, pooled-buffer aliasing), with and without state caching; every execution is checked by a vector-clock happens-before race detector (edges: go, Once, WaitGroup, Mutex) and against each call's value when executed alone; plus a free-running go build -race pass of the same scenario bodies of four larger image workloads (100x120, more than 20,000 table look-ups) and of 16 and 64 goroutines released together at first use across all spaces under GOMAXPROCS 16, 4 and 1 (40 fresh-state trials each), which are too big to explore; states = scheduling decision points, transitions = thread switches taken, traces = executions", len(scens), deep))
+	r.Rule(fmt.Sprintf("%d scenarios on the overlay-instrumented real code, fresh package state per execution: first-use races of the lazily built 16-bit tables (2 and 3 goroutines, 1-2 calls each, per space and across srgb/displayp3), image transforms and prism.ConvertImageTo* with parallelism 2 and 3 on 3x2 images down every destination path (tables first touched inside the workers), two image transforms at once, two concurrent Loads per loader, concurrent adaptations, one meta.Data / one icc.Profile / one source image shared by two goroutines, 8-bit and 16-bit entry points meeting at first use; iterative context bounding with happens-before state caching (a state = the multiset of per-goroutine history hashes, each history folding in the history of every write it read or overwrote and every release it acquired; a state reached again with no fewer preemptions used is not expanded again); 2-goroutine single-call first-use scenarios: ALL interleavings of hooked operations guaranteed; the others: all schedules with <= %d preemptions guaranteed (one more for the two-call colour scenarios, one or two fewer for 4 goroutines and parallelism 5/11), then one more preemption at a time while the per-scenario budget lasts, ending early when a pass was never limited by the bound (= all interleavings); the bound completed per scenario is in coverage.scenarios; the explorer first has to give the known verdict on 23 litmus programs (racy and locked counters, broken double-checked locking, Once with 2 and 3 goroutines, lock-order inversion with a 1-preemption counterexample, WaitGroup hand-over, unsynchronised flag, atomic publication, spin-wait on an atomic flag, atomic flag claimed too early, atomic against plain access, channel hand-over, channel semaphore, close and range, a completion token taken by the wrong caller, a receive nobody answers, a condition variable used correctly and with a single unchecked Wait, a sync.Map entry stored complete and stored empty, pooled-buffer aliasing), with and without state caching; every execution is checked by a vector-clock happens-before race detector (edges: go, Once, WaitGroup, Mutex) and against each call's value when executed alone; plus a free-running go build -race pass of the same scenario bodies of four larger image workloads (100x120, more than 20,000 table look-ups) and of 16 and 64 goroutines released together at first use across all spaces under GOMAXPROCS 16, 4 and 1 (40 fresh-state trials each), which are too big to explore; states = scheduling decision points, transitions = thread switches taken, traces = executions", len(scens), deep))
 	r.Assume("interleavings are sequentially consistent; weak-memory behaviours are covered through the race oracle (race-free programs have only SC executions); consecutive same-kind accesses by one goroutine to the same 8-byte cell are one scheduling step; hooked memory = package-level variables written outside init, captured locals, pixel planes, elements of element-assigned slices, and plain fields of structs that carry a sync or sync/atomic object; other heap objects reached through pointers, and code outside the instrumented packages, are covered only by the free-running -race pass")
 
 	runFree := func(name string) {
